@@ -17,6 +17,8 @@ func c17(c *Check) {
 	}
 	c.Trusted = []string{"ethermint reverts the EVM transaction when a post-transaction hook returns an error", "cosmos-sdk MsgServiceRouter", "syscontracts.ParseLog (go-ethereum abi event unpacking)", "go/ssa"}
 	c.Assume = []string{"the system contracts emit the caller (msg.sender) in the Delegator / Voter event field", "guards and bindings were selected by source position at freeze time (xlint/picks/C17.txt)"}
+	c.Rule("C17/native-failure-fails-the-module-call", "CallEVMWithData (the path on which a received packet's call data reaches the staking / gov contracts): an error of the post-transaction hooks — a failing native action — cannot reach a success return without the res.Failed() test, so the callback's EVM state is dropped with it", 3)
+	evmHookRule(c, "C17/native-failure-fails-the-module-call")
 	c.Rule("C17/hooks", "frozen table: both adapters dispatch a log to a handler only under bytes.Equal(log.Address, <system contract address>) and return the handler's error", 4)
 	c.Rule("C17/handlers", "frozen table: every handler parses its own event, builds the message only from that event's fields (delegator / voter from the event, bond denom from the staking keeper) and returns ExecuteMsg's result; parse and encoding errors are returned", 24)
 	c.Rule("C17/execute", "frozen table: ExecuteMsg validates the message, requires a routed handler and returns the handler's error", 3)
